@@ -24,14 +24,14 @@ import (
 )
 
 type jAttrs struct {
-	Fl    []string   `json:"fl"`
-	Size  []int      `json:"size"`
-	UID   []int      `json:"uid"`
-	GID   []int      `json:"gid"`
-	Perm  []int      `json:"perm"`
-	Atime []int      `json:"atime"`
-	Mtime []int      `json:"mtime"`
-	Ext   [][][]int  `json:"ext"`
+	Fl    []string  `json:"fl"`
+	Size  []int     `json:"size"`
+	UID   []int     `json:"uid"`
+	GID   []int     `json:"gid"`
+	Perm  []int     `json:"perm"`
+	Atime []int     `json:"atime"`
+	Mtime []int     `json:"mtime"`
+	Ext   [][][]int `json:"ext"`
 }
 
 type jName struct {
@@ -601,7 +601,9 @@ func fxEqual(a, b any) bool {
 	return norm(ja) == norm(jb)
 }
 
-func replaceAll(s, old, new string) string { return string(bytes.ReplaceAll([]byte(s), []byte(old), []byte(new))) }
+func replaceAll(s, old, new string) string {
+	return string(bytes.ReplaceAll([]byte(s), []byte(old), []byte(new)))
+}
 
 func TestVerif_WireTable(t *testing.T) {
 	tr := newTracer(t)
